@@ -11,7 +11,7 @@ Semantic property that should hold of elvish:
   Statement: {p['statement']}
   Code it is anchored in: {', '.join(p['anchors']['files'])}
 
-Task: make ONE realistic change to the elvish source in your worktree (non-test files only, a few lines, the kind of slip a developer could make in a refactoring) that BREAKS this property while the project still compiles and its whole existing test suite still passes. The breakage must need something specific to manifest - a particular interleaving, a fault or interrupt at a particular point, a multi-step sequence of operations, an unusual input, or two cooperating sites that each look fine alone - not something ordinary use would expose at once. Then write a demonstration (a Go test file or small Go program inside the worktree, e.g. pkg/.../zz_seed_demo_test.go) that FAILS with your change and PASSES without it (verify both, using `git stash` or by reverting your edit temporarily). If the demonstration depends on scheduling, make it reliable (loops, many iterations, runtime.Gosched, or hooks you add only in the demo file), and say how often it fails.
+Task: make ONE realistic change to the elvish source in your worktree (non-test files only, a few lines, the kind of slip a developer could make in a refactoring) that BREAKS this property while the project still compiles and its whole existing test suite still passes. The breakage must need something specific to manifest - a particular interleaving, a fault or interrupt at a particular point, a multi-step sequence of operations, an unusual input, or two cooperating sites that each look fine alone - not something ordinary use would expose at once. Then write a demonstration (a Go test file or small Go program inside the worktree, e.g. pkg/.../zz_seed_demo_test.go) that FAILS with your change and PASSES without it (verify both by reverting your edit temporarily with `git diff > /tmp/seed/<id>.patch; git apply -R /tmp/seed/<id>.patch; ...; git apply /tmp/seed/<id>.patch` - do NOT use git stash: it is shared between worktrees). If the demonstration depends on scheduling, make it reliable (loops, many iterations, runtime.Gosched, or hooks you add only in the demo file), and say how often it fails.
 
 Verify the existing tests: run at least the test packages that could be affected plus `go build ./...`, and finally `go test -count=1 ./... 2>&1 | grep -v '^ok\\|no test files' | tail` (tests known to be flaky under machine load, e.g. terminal-timing tests in pkg/edit, pkg/cli, pkg/shell, may be re-run individually). Keep your change and your demo file as UNCOMMITTED modifications in the worktree.
 
